@@ -1128,7 +1128,9 @@ def run(ctx):
             'McBlockExtra', 'McStateExtra', 'BlockExtra', 'Block', 'ShardStateUnsplit', 'ShardState']
     order = sorted(t for t in P if t not in late) + late
     if ctx.search:
+        state = ctx.rng.getstate()      # the search streams that follow keep their own draws
         noncanon_stream(ctx, P, order, 10)
+        ctx.rng.setstate(state)
         if ctx.failures:
             return
         _run_before_noncanon(ctx)
@@ -1153,3 +1155,13 @@ def replay(ctx, payload):
             ctx.fail(f[0], f[1], inp, f[2], f[3])
         return
     _replay_before_noncanon(ctx, payload)
+
+# the spec decoder on every legal (also non-minimal) VarUInteger / Grams encoding: Properties/C16NonCanon.lean
+SPEC['property_modules'] = list(SPEC.get('property_modules', [])) + ['C16NonCanon']
+SPEC['manifest']['text'] += (' NON-CANONICAL VarUInteger / Grams: the spec encoder writes the minimal len; Properties/C16NonCanon.lean proves that the spec decoder '
+                             'reads EVERY legal len (len < n, value < 2^(8 len)) as the value and consumes exactly len field + len bytes (c16_var_uint_any_len, '
+                             'c16_grams_any_len; len >= n refused: c16_var_uint_len_bound). Every run rewrites the VarUIntegers the spec trace locates in generated '
+                             'values of every type (top cell, referenced structures, dictionary leaves and fork extras) with len in minimal..n-1, lets the spec '
+                             'decoder confirm the same value and trailer, and compares the library parser field by field and on the remaining bits/refs (sampled).')
+SPEC['rule'] += ('; non-canonical encodings: 6 values per type x <= 3 rewrites (all VarUIntegers +1 byte / all maximal / one site / random slack), '
+                 'confirmed by the spec decoder')
